@@ -102,6 +102,25 @@ func H_rec_rename() {
 		fe, okf := verifDeliverName(w, e.wd, unix.IN_CREATE, 0, "file")
 		verifAssert(okf && fe.Op == Create && fe.Name == want+"/file", "changes below the tree are reported with the entry's true current path")
 	}
+	// A new directory is then created under the old name (one level, its Create delivered):
+	// it must get its own watch, and the renamed directory must stay covered.
+	verifK.addResolve = 1 // a new inode
+	verifK.nIno = 2
+	rmBefore := verifK.rmCalls
+	ev3, ok3 := verifDeliverName(w, verifRecT[pi].wd, unix.IN_CREATE|unix.IN_ISDIR, 0, m.old)
+	verifAssert(ok3 && ev3.Op == Create && ev3.Name == oldp, "a directory created under the old name is reported with its true path")
+	moved := w.watches.wd[verifRecT[oi].wd]
+	verifAssert(moved != nil && moved.path == newp, "the renamed directory stays covered under its new name when the old name is re-used")
+	verifAssert(verifK.rmCalls == rmBefore, "re-using the old name must not remove the renamed directory's kernel watch")
+	nwd := uint32(verifK.nextWd)
+	fresh := w.watches.wd[nwd]
+	verifAssert(nwd != verifRecT[oi].wd && fresh != nil && fresh.path == oldp, "the directory created under the old name gets its own watch")
+	if fresh != nil {
+		f1, k1 := verifDeliverName(w, nwd, unix.IN_CREATE, 0, "file")
+		verifAssert(k1 && f1.Name == oldp+"/file", "changes in the new directory are reported under its own path")
+	}
+	f2, k2 := verifDeliverName(w, verifRecT[oi].wd, unix.IN_CREATE, 0, "file")
+	verifAssert(k2 && f2.Op == Create && f2.Name == newp+"/file", "changes in the renamed directory are still reported, under its new path")
 	verifReach("rec-rename")
 }
 
